@@ -163,7 +163,34 @@ def add_content_whitespace(rng, r, eol):
             x["s"] = rng.choice([x["s"] + mid + "z" + x["s"], mid + x["s"], x["s"] + mid, "<pre>" + x["s"] + mid + "q</pre>" if x["k"] != "text" else x["s"] + mid + "q"])
 
 
+def check_dependency_heads(ctx, heads, via):
+    """Inline content carried by dependencies (their head= markup) obeys the same rule where it is emitted: the head
+    contents of adjacent dependencies that hold no whitespace-enabled tag are concatenated with nothing between them."""
+    wit = {"dependency_heads": heads, "via": via}
+    gen.reset_shared()
+    deps = [ht.HTMLDependency("hd%d" % i, "1.0", head=ht.TagList(*[gen.build(c) for c in h])) for i, h in enumerate(heads)]
+    ctx.count("oracle.dependency_heads")
+    try:
+        if via == "textdoc":
+            out = ht.HTMLTextDocument("<html><head>@@D@@</head><body>b</body></html>", deps=deps, deps_replace_pattern="@@D@@").render()["html"]
+        elif via == "document":
+            out = ht.HTMLDocument(ht.div("b", *deps)).render()["html"]
+        else:
+            out = ht.TagList(*[d.as_html_tags() for d in deps]).get_html_string(2)
+    except Exception as e:
+        ctx.violation("render-raises", "rendering dependency heads raised %r" % e, wit)
+        return False
+    want = "".join(layout.inline_str(c) for h in heads for c in h)
+    if want not in out:
+        ctx.violation("whitespace-between-inline-siblings", "inline head content of adjacent dependencies is not emitted contiguously (via %s)" % via,
+                      dict(wit, expected=want[:300], output=out[:900]))
+        return False
+    return True
+
+
 def replay(ctx, w):
+    if "dependency_heads" in w:
+        return check_dependency_heads(ctx, w["dependency_heads"], w["via"])
     check_case(ctx, w["recipe"], w["indent"], w["eol"], w.get("content_ws", False))
 
 
@@ -207,6 +234,19 @@ def _run(ctx):
             ctx.case((r, indent, eol), nontrivial=nontrivial(r))
         ctx.state("pair_cells", cell)
     ctx.exhaustive["ordered_sibling_kind_pairs_x_parent_x_position_incl_block_in_inline"] = True
+    for _ in range(ctx.budget(150, 15000)):
+        ids = lg.Ids()
+        heads = []
+        for _k in range(rng.randint(1, 4)):
+            h = [lg.rand_layout_tree(rng, ids, rng.choice([0, 1, 2]), valid=True, inside_inline=True,
+                                     kinds_w={"inline": 3, "text": 3, "html": 1, "obj": 1, "void_inline": 1, "block": 0, "void_block": 0, "meta": 0, "dep": 0, "rawtext": 0})
+                 for _j in range(rng.randint(1, 3))]
+            if rng.random() < 0.3:
+                h.append({"k": "text", "s": ids.next("b") + rng.choice(["\\n", "\\t\\1", "\\g<0>", " sp ", "x\ny"])})
+            heads.append(h)
+        via = rng.choice(["textdoc", "document", "as_html_tags"])
+        ctx.guard(check_dependency_heads, ctx, heads, via, witness={"dependency_heads": heads, "via": via})
+        ctx.case(("heads", heads, via), nontrivial=len(heads) >= 2)
     ex = gen.TAG("span", gen.T("t1;"), gen.TAG("div", gen.TAG("b", gen.T("t2;"), ws=False), gen.T("t3;")), gen.T("t4;"), ws=False)
     ctx.sample({"recipe": ex, "output": gen.build(ex).get_html_string()})
 
